@@ -128,7 +128,9 @@ def run_case(ctx, g, rng):
         recs.append(spec.Rec(p, f"http://u{i}/", ps, us, None))
     sp = spec.SpecConverter(recs, d)
     known = [p for r in recs for p in spec.all_p(r)]
-    unknown = [x for x in alpha + ["zz", "yy"] if x not in known]
+    # (new names may contain the converter's own delimiter: remapping is about names, not about CURIE syntax)
+    unknown = [x for x in alpha + ["zz", "yy", "ncbi" + d + "geo", d + "n"] if x not in known]
+    rng.shuffle(unknown)
     m = {}
     style = rng.choice(["random", "random", "chain", "swap", "self", "partial-chain", "onto-synonym"])
     if style == "random":
